@@ -497,6 +497,8 @@ pub fn run_c14(cfg: &Cfg) {
         let total = count_groups(&p);
         pats.push(to_string(&clamp_refs(&p, total)));
     }
+    // witness of known finding F20 (a pattern that starts with a quantifier-like text), replayed as itself
+    pats.push("{2}".to_string());
     let txts = all_texts(&['a', 'A', 'b', 'B'], 3);
     let o_ci = Opts { casei: true, ..Opts::default() };
     let o_plain = Opts::default();
